@@ -267,6 +267,13 @@ func getArchive(S *world.Server) (int, []byte, error) {
 	return S.Get("/api/v1/archive")
 }
 
+// carriesArchive reports whether a response body holds zip content (a local
+// file header or an end-of-central-directory record): a refusal must not
+// deliver the archive along with its status code.
+func carriesArchive(body []byte) bool {
+	return bytes.Contains(body, []byte("PK\x03\x04")) || bytes.Contains(body, []byte("PK\x05\x06"))
+}
+
 func TestC14GapMatrix(t *testing.T) {
 	ev.Rule("C14(1): COMPLETE MATRIX of (gap before each of the 6 files added to the archive) x (write burst: new device + first report, GCA registration + first device + report, rotation, conflicting authorization, burst of reports, a forged resubmission of a held authorization, a refused second registration) on generated states (unregistered / registered with 0-3 devices, reports, 0-1 archived weeks): the archive is requested and the burst runs from the gap's callback; oracle: every public file in the archive is a record-aligned byte prefix of the final file, every archived report verifies under an authorization in the same archive, every archived authorization under the archived GCA key, every weekly record under the archived server public key, no server.keys entry, the private key bytes occur nowhere, server.pubkey is exactly the public key; non-trivial = archive during which the burst landed; distinct by (state, gap, burst)")
 	server.VerifSetStepping(true)
@@ -496,8 +503,11 @@ func TestC14RateLimit(t *testing.T) {
 			var calls []rlCall
 			one := func() {
 				b := time.Since(start)
-				code, _, err := getArchive(S)
+				code, body, err := getArchive(S)
 				a := time.Since(start)
+				if err == nil && code != 200 && carriesArchive(body) {
+					t.Fatalf("C14: a request answered %d (not served) carries an archive in its body (%d bytes)", code, len(body))
+				}
 				if err == nil && (code == 200 || code == 429) {
 					calls = append(calls, rlCall{before: b, after: a, ok: code == 200})
 				}
@@ -526,14 +536,21 @@ func TestC14RateLimit(t *testing.T) {
 		var mu sync.Mutex
 		var calls []rlCall
 		var wg sync.WaitGroup
+		leaked := make(chan string, 1)
 		for g := 0; g < workers; g++ {
 			wg.Add(1)
 			go func(g int) {
 				defer wg.Done()
 				for i := 0; i < per; i++ {
 					b := time.Since(start)
-					code, _, err := getArchive(S)
+					code, body, err := getArchive(S)
 					a := time.Since(start)
+					if err == nil && code != 200 && carriesArchive(body) {
+						select {
+						case leaked <- fmt.Sprintf("a request answered %d (not served) carries an archive in its body (%d bytes)", code, len(body)):
+						default:
+						}
+					}
 					if err == nil && (code == 200 || code == 429) {
 						mu.Lock()
 						calls = append(calls, rlCall{before: b, after: a, ok: code == 200, g: g})
@@ -545,6 +562,11 @@ func TestC14RateLimit(t *testing.T) {
 		}
 		wg.Wait()
 		ev.Eval(len(calls))
+		select {
+		case why := <-leaked:
+			t.Fatalf("C14: %s", why)
+		default:
+		}
 		if v := rlJudge(lim, win, calls); v != "" {
 			t.Fatalf("C14: archive rate limit (%d per %v): %s", lim, win, v)
 		}
